@@ -32,13 +32,25 @@ type fault struct {
 
 type shape struct {
 	Stages   int     `json:"stages"`
-	FanOut   int     `json:"fan_out_stage"`     // stage returning 2 outputs (-1 none)
-	DupStage int     `json:"dup_handler_stage"` // stage with two handlers on its topic (-1 none)
-	FanIn    bool    `json:"fan_in"`            // two first stages (t0a, t0b) publishing into t1
+	FanOut   int     `json:"fan_out_stage"`               // stage returning 2 outputs (-1 none)
+	Outs     []int   `json:"outputs_per_stage,omitempty"` // when set: number of outputs of every stage (batch Publish calls on consecutive topics)
+	DupStage int     `json:"dup_handler_stage"`           // stage with two handlers on its topic (-1 none)
+	FanIn    bool    `json:"fan_in"`                      // two first stages (t0a, t0b) publishing into t1
 	Msgs     int     `json:"messages"`
 	Cfg      int     `json:"config"`
 	Faults   []fault `json:"faults"`
 	YieldP   float64 `json:"yield"`
+}
+
+// outs is the number of messages a stage's handler returns per input.
+func (sh shape) outs(stage int) int {
+	if stage < len(sh.Outs) {
+		return sh.Outs[stage]
+	}
+	if stage == sh.FanOut {
+		return 2
+	}
+	return 1
 }
 
 // the exhaustive sub-space: stages<=2, msgs<=2, faults<=maxFaults with call<=2
@@ -86,6 +98,15 @@ func enumShapes(maxFaults int) []shape {
 			}
 		}
 	}
+	// batch block: two consecutive stages that both return 2 messages (one Publish call carrying a batch per stage,
+	// overlapping batch Publish calls on different topics of one GoChannel), every single fault placement
+	for _, fs := range enumFaults(2, 1) {
+		for msgs := 1; msgs <= 2; msgs++ {
+			for cfg := 0; cfg < 12; cfg++ {
+				out = append(out, shape{Stages: 2, FanOut: -1, DupStage: -1, Outs: []int{2, 2}, Msgs: msgs, Cfg: cfg, Faults: fs})
+			}
+		}
+	}
 	enumCache[maxFaults] = out
 	return out
 }
@@ -103,7 +124,8 @@ func init() {
 		Level: "fault_enumeration",
 		Cases: func(tier string) int { return enumCount(tier) + vlib.TierN(tier, 400, 64000) },
 		Rule: "enumerated part: pipelines of 1..2 Router stages connected by GoChannel topics, 1..2 source messages, all 12 GoChannel configs {buffer 0/1/4 x persistent x blocking}, and EVERY placement of up to 1 (quick) / 2 (thorough) faults {handler error, handler panic, publisher error, publisher panic} on call 0..2 of any stage (exhaustive within these bounds: " + fmt.Sprint(len(enumShapes(1))) + " / " + fmt.Sprint(len(enumShapes(2))) + " cases); " +
-			"random part: 1..4 stages, optional fan-out stage (2 outputs), optional stage with two handlers on its topic, optional fan-in (two first stages into one topic), 1..8 messages from 1..2 publisher goroutines, up to 12 faults on random calls, yield injection at the router/gochannel hook points. " +
+			"plus a batch block: 2 stages that both return 2 messages (batch Publish calls overlapping on consecutive topics) x 1..2 messages x 12 configs x every single fault; " +
+			"random part: 1..4 stages, optional fan-out stage (2 outputs) or 1..3 outputs on every stage, optional stage with two handlers on its topic, optional fan-in (two first stages into one topic), 1..8 messages from 1..2 publisher goroutines, up to 12 faults on random calls, yield injection at the router/gochannel hook points. " +
 			"Oracle at quiescence: every accepted source message has >=1 arrival per expected lineage at the sink subscription; every arrival's lineage is one the pipeline can produce from an accepted source message and its payload is intact; the consumed message of a stage is still unsettled when the Publish of its output returns nil; a source Publish never hangs; the process does not crash. " +
 			"Non-trivial: >=1 injected fault actually fired. Distinct = (shape, faults fired, hook fingerprint).",
 		Assumptions: []string{
@@ -119,6 +141,16 @@ func genRandom(e *vlib.Env) shape {
 	s := shape{Stages: r.Range(1, 4), FanOut: -1, DupStage: -1, Msgs: r.Range(1, 8), Cfg: r.Intn(12), YieldP: []float64{0, 0.3, 0.6}[r.Intn(3)]}
 	if r.Chance(0.35) {
 		s.FanOut = r.Intn(s.Stages)
+	}
+	if r.Chance(0.3) {
+		// every stage returns 1..3 messages: batch publishes on consecutive topics
+		s.FanOut = -1
+		for i := 0; i < s.Stages; i++ {
+			s.Outs = append(s.Outs, r.Range(1, 3))
+		}
+		if s.Stages > 2 {
+			s.Msgs = r.Range(1, 4) // up to 3^4 lineages per source message
+		}
 	}
 	if r.Chance(0.3) {
 		s.DupStage = r.Intn(s.Stages)
@@ -253,14 +285,11 @@ func run(e *vlib.Env) vlib.Result {
 			case "handler-panic":
 				panic("injected handler panic")
 			}
-			n := 1
-			if stage == sh.FanOut {
-				n = 2
-			}
+			n := sh.outs(stage)
 			var outs []*message.Message
 			for i := 0; i < n; i++ {
 				u := fmt.Sprintf("%s/s%d%s", in.UUID, stage, tag)
-				if n == 2 {
+				if n >= 2 {
 					u += fmt.Sprintf("#%d", i)
 				}
 				o := message.NewMessage(u, in.Payload)
@@ -373,8 +402,10 @@ func run(e *vlib.Env) vlib.Result {
 			var out []string
 			for _, tg := range tags {
 				b := fmt.Sprintf("%s/s%d%s", u, stage, tg)
-				if stage == sh.FanOut {
-					out = append(out, b+"#0", b+"#1")
+				if n := sh.outs(stage); n >= 2 {
+					for i := 0; i < n; i++ {
+						out = append(out, fmt.Sprintf("%s#%d", b, i))
+					}
 				} else {
 					out = append(out, b)
 				}
